@@ -1,7 +1,7 @@
 (* C19 — the plan is a deterministic function of the registration sequence, invariant under
    renaming of systems, injective relabelling of resources and permutation / duplication inside
    the access lists.  Statements only; proofs in PlanRel.v. *)
-From Shred Require Import Base SrcParams Plan PlanObs PlanLemmas PlanInv PlanLoc PlanBuild PlanProps PlanRel.
+From Shred Require Import Base SrcParams Plan PlanObs PlanLemmas PlanInv PlanLoc PlanBuild PlanProps PlanRel PlanAnon.
 
 (* the same registration sequence always yields the same plan (the planner is a function) *)
 Theorem C19_plan_is_deterministic : forall rs r1 r2, plan rs = r1 -> plan rs = r2 -> r1 = r2.
@@ -24,6 +24,26 @@ Theorem C19_plan_invariant_under_renaming_relabelling_and_list_order :
              max_threads b' = max_threads b /\ layout_ids b' = layout_ids b.
 Proof. exact plan_invariant. Qed.
 Print Assumptions C19_plan_invariant_under_renaming_relabelling_and_list_order.
+
+(* names carry no information beyond dependency resolution: for every set X of names that no
+   dependency list (at any nesting level) mentions, registering the systems called by a name in X
+   as anonymous ("") instead yields the same stages — every system, id, stage, group and position —
+   and the same thread-local list.  (Right to left: naming anonymous systems changes nothing.) *)
+Theorem C19_unreferenced_names_are_irrelevant :
+  forall (X : name -> bool) rs b,
+  forallb (avoid_reg X) rs = true -> plan rs = Ok b ->
+  exists b', plan (map (erase_reg X) rs) = Ok b' /\ b_stages b' = b_stages b /\ b_tl b' = b_tl b /\
+             layout_tags b' = layout_tags b /\ max_threads b' = max_threads b.
+Proof. exact plan_names_irrelevant. Qed.
+Print Assumptions C19_unreferenced_names_are_irrelevant.
+
+Example C19_example_anonymous :
+  let X := fun n : name => name_eqb n [99] in
+  let rs := [RSys 1 [97] [] [] [8] 3%Z; RSys 2 [99] [] [] [9] 1%Z; RSys 3 [98] [] [] [8; 9] 1%Z; RSys 4 [100] [[98]] [] [] 2%Z] in
+  forallb (avoid_reg X) rs = true /\
+  map (erase_reg X) rs = [RSys 1 [97] [] [] [8] 3%Z; RSys 2 [] [] [] [9] 1%Z; RSys 3 [98] [] [] [8; 9] 1%Z; RSys 4 [100] [[98]] [] [] 2%Z] /\
+  exists b, plan rs = Ok b /\ layout_tags b = [[[1]; [2]]; [[3]]; [[4]]]%N.
+Proof. split; [|split]; [vm_compute; reflexivity..|]. eexists. split; vm_compute; reflexivity. Qed.
 
 (* the relation covers plain relabelling and plain permutation/duplication *)
 Theorem C19_image_lists_are_related : forall phi l, sset phi l (map phi l).
